@@ -579,7 +579,10 @@ class Queue(Greenlet):
                 self.queued_lock.release()
             # Sleep without the lock: holding it here, and taking it again
             # straight after releasing it, never let flush() acquire it.
-            self._wait_ready(now)
+            # Look at the clock again: _check_ready() may have blocked on a
+            # full store pool, and sleeping "until the next due time" from
+            # the old reading would oversleep by that long.
+            self._wait_ready(time.time())
 
 
 # vim:et:fdm=marker:sts=4:sw=4:ts=4
